@@ -26,6 +26,10 @@ fn main() {
         outln!("{}", engines::pgen::render_config(&spec));
         return;
     }
+    if id == "dbg-resource" {
+        engines::e2e::debug_resource(&args[1]);
+        return;
+    }
     if id == "dbg-e2e" {
         engines::e2e::debug_case(&args[1]);
         return;
